@@ -1,5 +1,6 @@
 import Gossamer.Base.Proto
 import Gossamer.Model.C13
+import Gossamer.Lib.HashRef
 open Gossamer Gossamer.C13
 
 /- line:  `le <hex>` | `be <hex>` | `big <decimal>` | `json <text>` | `cmp <hex> <hex>` | `scale <hex le>` | `acct nonce cons prod suff free reserved misc frozen`
@@ -35,6 +36,15 @@ def step (line : String) : String :=
     | some n, some c, some p, some sf, some f, some r, some m, some z =>
       s!"{hex (accountInfoEnc n c p sf (ofBig f) (ofBig r) (ofBig m) (ofBig z))} rt=true"
     | _, _, _, _, _, _, _, _ => "bad-op"
+  -- lib/genesis buildBalances: one System.Account entry per (address, balance)
+  | ["gbal", a, d] => match ofHex? a, parseDec? d.toList with
+    | some addr, some n =>
+      if n ≥ 2^128 then "bad-op" else
+      let tw (s : String) : Bytes := HashRef.u64le (HashRef.xxh64 0 s.toUTF8.toList) ++ HashRef.u64le (HashRef.xxh64 1 s.toUTF8.toList)
+      let key := tw "System" ++ tw "Account" ++ HashRef.blake2b 16 addr ++ addr
+      let z := ofBig 0
+      s!"{hex key}={hex (accountInfoEnc 0 0 0 0 (ofBig n) z z z)} src={n}"
+    | _, _ => "bad-op"
   | _ => "bad-op"
 
 def main : IO Unit := runDriver step
